@@ -123,10 +123,21 @@ def prov_annotate_lookup(repo, tier="quick"):
     obs = []
     oid = "PROV.annotate-lookup"
     # insertion: X[f].append(node) for node, fragids in get_node_attributes(molecule, 'fragid').items() for f in fragids
+    def as_lookup(t):
+        """index.setdefault(k, []) and index.get(k, []) are index[k] as far as the members of k are concerned"""
+        if isinstance(t, tuple) and t and t[0] == "call":
+            for meth in ("setdefault", "get"):
+                mm = method_call(t, meth)
+                if mm and 1 <= len(mm[2]) <= 2 and (len(mm[2]) == 1 or mm[2][1] in (("list", ()), ("tuple", ())) or
+                                                     (is_call(mm[2][1], "list") is not None and not is_call(mm[2][1], "list")[0])):
+                    return ("sub", mm[0], mm[2][0])
+        return t
     ins = None
     for call, nid in fl.calls():
         ct = fl.canon(call, nid)
         m = method_call(ct, "append")
+        if m:
+            m = (as_lookup(m[0]),) + tuple(m[1:])
         if not m or m[0][0] != "sub" or len(m[2]) != 1:
             continue
         key, val = m[0][2], m[2][0]
@@ -156,6 +167,8 @@ def prov_annotate_lookup(repo, tier="quick"):
     for call, nid, ct, m in adds:
         node = m[2][0]
         e = elem_of(node)
+        if e and e[0] == "elem":
+            e = (e[0], as_lookup(strip_wrappers(e[1])))
         ok = False
         if e and e[0] == "elem" and e[1][0] == "sub" and e[1][1] == index:
             mk = elem_of(e[1][2])
@@ -187,6 +200,8 @@ def prov_annotate_lookup(repo, tier="quick"):
         pair_ok = False
         if a[0] == "sub" and b[0] == "sub" and a[1] == b[1] and {a[2], b[2]} == {("const", 0), ("const", 1)} and a[1][0] == "iter":
             comb = is_call(a[1][2], "itertools.combinations")
+            if comb and comb[0]:
+                comb = ((as_lookup(strip_wrappers(comb[0][0])),) + tuple(comb[0][1:]), comb[1])
             if comb and comb[0] and comb[0][0][0] == "sub" and comb[0][0][1] == index:
                 mk = elem_of(comb[0][0][2])
                 r = comb[0][1] if len(comb[0]) > 1 else dict(a[1][2][4]).get("r")
@@ -218,6 +233,27 @@ def prov_annotate_lookup(repo, tier="quick"):
                 recv = {a[3][0] for a in adds}
                 if mk and strip_wrappers(mk[1]) in (("attr", meta, "nodes"), meta) and v in recv:
                     stored = True
+    # ... for every coarse node, also one without atoms (it gets an empty graph; a stale one from an earlier resolution must not survive)
+    for n in cfg.nodes:
+        if n.kind == "stmt" and isinstance(n.ast, ast.Assign) and isinstance(n.ast.targets[0], ast.Subscript):
+            na = node_attr(fl.canon(n.ast.targets[0], n.id))
+            if na and na[0] == meta and na[2] == ("const", "graph"):
+                lps = enclosing_loops(fi, n.id)
+                if lps:
+                    head = lps[-1].id
+                    starts = [d for d, lab in cfg.succ[head] if lab in ("iter", "T")]
+                    skipped = False
+                    for s0 in starts:
+                        if s0 == n.id:
+                            continue
+                        reach = {s0} | cfg.reachable_from(s0, avoid={n.id}, edge_filter=lambda a, b, l: l != "exc")
+                        if head in reach:
+                            skipped = True
+                    (obs.append(ob_fail(oid, fi, n.ast, construct="an iteration over the coarse nodes can skip the store of 'graph'", instance="store:every-node",
+                                        reason="a coarse node without atoms keeps whatever 'graph' it carried before (for example from an earlier resolution of the "
+                                               "same base graph): it is then mapped to atoms of other nodes")) if skipped else
+                     obs.append(ob_ok(oid, fi, n.ast, construct="every coarse node gets a (possibly empty) per-node graph", instance="store:every-node",
+                                      reason="no stale mapping survives on virtual nodes")))
     (obs.append(ob_ok(oid, fi, construct="meta_graph.nodes[meta_node]['graph'] = graph_frag", instance="store", reason="stored on its own coarse node")) if stored else
      obs.append(ob_fail(oid, fi, construct="store of the per-node graph", instance="store", reason="the per-node graph is not stored under 'graph' on the coarse node it was built for")))
     return obs
@@ -322,6 +358,20 @@ def key_rdkit(repo, tier="quick"):
                 k = fl.canon(n.ast.targets[0].slice, n.id)
                 if _classify_key(fl, k, graph) == "node" and isinstance(n.ast.targets[0].value, ast.Name):
                     maps.add(n.ast.targets[0].value.id)
+    # ... or built in one go:  node_to_idx = {node: mol.AddAtom(...) for node, ... in graph.nodes(...)}
+    for n in fi.cfg.nodes:
+        if n.kind == "stmt" and isinstance(n.ast, ast.Assign) and isinstance(n.ast.targets[0], ast.Name) and isinstance(n.ast.value, ast.DictComp) and \
+                len(n.ast.value.generators) == 1 and not n.ast.value.generators[0].ifs:
+            dc = n.ast.value
+            g = dc.generators[0]
+            is_add = isinstance(dc.value, ast.Call) and isinstance(dc.value.func, ast.Attribute) and dc.value.func.attr == "AddAtom"
+            it = strip_wrappers(fl.canon(g.iter, n.id))
+            mm = method_call(it, "nodes")
+            over_nodes = it in (("attr", graph, "nodes"), graph) or (mm is not None and mm[0] == graph)
+            key_is_node = (isinstance(g.target, ast.Name) and isinstance(dc.key, ast.Name) and dc.key.id == g.target.id and not (mm is not None and (mm[2] or mm[3]))) or \
+                (isinstance(g.target, ast.Tuple) and g.target.elts and isinstance(g.target.elts[0], ast.Name) and isinstance(dc.key, ast.Name) and dc.key.id == g.target.elts[0].id)
+            if is_add and over_nodes and key_is_node:
+                maps.add(n.ast.targets[0].id)
     for call, nid in fl.calls():
         if isinstance(call.func, ast.Attribute) and call.func.attr == "AddBond":
             n_sites += 1
@@ -403,7 +453,30 @@ def norm_bead(repo, tier="quick"):
                         ek = elem_of(na[1])
                         if ek and ek[0] == "key" and ek[1] == ew[1]:
                             acc = (n, al[0], strip_wrappers(ew[1]))
+                    # for atom, weight in fragment.nodes(data='weight'[, default=1]): the same pairs, read off the per-node graph directly
+                    if na and na[0] == aa and na[2] == ("const", "position") and acc is None and w[0] == "sub" and w[2] == ("const", 1) and w[1][0] == "iter" \
+                            and na[1] == ("sub", w[1], ("const", 0)):
+                        ci = w[1][2]
+                        if ci[0] == "call" and ci[2][0] == "attr" and ci[2][2] == "nodes" and \
+                                dict(ci[4]).get("data", ci[3][0] if ci[3] else None) == ("const", "weight"):
+                            acc = (n, al[0], ("call", None, ("ext", "networkx.get_node_attributes"), (ci[2][1], ("const", "weight")), ()))
+                            nodesdata_elem = w
     if acc is None:
+        # the whole bead in one array expression: a plain mean divides by the number of atoms, not by the sum of the weights
+        for q in cfg.nodes:
+            if q.kind == "stmt" and isinstance(q.ast, ast.Assign) and isinstance(q.ast.targets[0], ast.Subscript):
+                na_t = node_attr(fl.canon(q.ast.targets[0], q.id))
+                if na_t and na_t[0] == cg and na_t[2] == ("const", "position"):
+                    vq = fl.canon(q.ast.value, q.id)
+                    mean = is_call(vq, "numpy.mean", "numpy.nanmean") or (method_call(vq, "mean") if method_call(vq, "mean") else None)
+                    avg = is_call(vq, "numpy.average")
+                    if mean is not None:
+                        return [ob_fail(oid, fi, q.ast, construct="bead position = mean(...) of the weighted atom positions", instance="divisor",
+                                        reason="a mean divides by the number of atoms, not by the sum of the weights: with any weight other than 1 the bead is "
+                                               "not the weighted average and does not follow a translation of its atoms")]
+                    if avg is not None and "weights" not in dict(avg[1]):
+                        return [ob_fail(oid, fi, q.ast, construct="bead position = numpy.average(...) without weights", instance="divisor",
+                                        reason="the atom weights do not enter the average")]
         raise AnalysisError("forward_map_molecule: cannot find `pos += aa.nodes[n]['position'] * weight` over weights.items()", fi.where())
     n, var, W = acc
     c = is_call(W, "networkx.get_node_attributes")
@@ -451,6 +524,11 @@ def norm_bead(repo, tier="quick"):
             ev = elem_of(x[3])
             if ev and ev[0] == "value" and strip_wrappers(ev[1]) == W:
                 ok = True
+    # the number of atoms instead of the sum of their weights
+    cl = is_call(d, "len")
+    count_bad = None
+    if cl and cl[0]:
+        count_bad = show(d)
     memo_bad = None
     if d[0] == "sub" and not ok:
         # a memo table D[key] = sum(weights.values()): sound only when the key identifies the bead
@@ -472,13 +550,21 @@ def norm_bead(repo, tier="quick"):
         for dd in fl.reaching(d[1], m.id):
             al2 = aug_like(dd.ast) if dd.ast is not None and isinstance(dd.ast, (ast.AugAssign, ast.Assign)) else None
             if al2 and al2[1] is ast.Add:
-                ev = elem_of(fl.canon(al2[2], dd.node))
+                tv = fl.canon(al2[2], dd.node)
+                ev = elem_of(tv)
                 if ev and ev[0] == "value" and strip_wrappers(ev[1]) == W:
                     ok = True
+                # total += weight for (atom, weight) in fragment.nodes(data='weight')
+                if tv[0] == "sub" and tv[2] == ("const", 1) and tv[1][0] == "iter":
+                    ci = tv[1][2]
+                    if ci[0] == "call" and ci[2][0] == "attr" and ci[2][2] == "nodes" and c and ci[2][1] == c[0][0] and \
+                            dict(ci[4]).get("data", ci[3][0] if ci[3] else None) == ("const", "weight"):
+                        ok = True
     (obs.append(ob_ok(oid, fi, m.ast, construct="weighted sum / sum(weights)", instance="divisor",
                       reason="weight-normalised average: translating the atoms translates the bead by the same vector")) if ok else
      obs.append(ob_fail(oid, fi, m.ast, construct="weighted sum / %s" % show(d), instance="divisor",
-                        reason=("the sum of weights is remembered under %s, which does not identify the bead: another bead with the same key but other "
+                        reason=("the weighted sum is divided by the number of atoms (%s), not by the sum of their weights" % count_bad) if count_bad else
+                        ("the sum of weights is remembered under %s, which does not identify the bead: another bead with the same key but other "
                                 "weights is normalised with the wrong total" % memo_bad) if memo_bad else
                         "the weighted sum is not divided by the sum of the same weights (the bead is not translation-equivariant unless all weights are 1)")))
     # stored on the bead
